@@ -611,19 +611,25 @@ func (t *Truncate) makeString(sb *strings.Builder) {
 		sb.WriteString(" DRYRUN")
 	}
 	t.Source.makeString(sb)
-	if t.MinSize != nil {
-		p := int64(*t.MinSize)
-		addInt64IfNotEmpty("MINSIZE", &p, sb)
-	}
-	if t.MaxSize != nil {
-		p := int64(*t.MaxSize)
-		addInt64IfNotEmpty("MAXSIZE", &p, sb)
-	}
+	addSizeIfNotEmpty("MINSIZE", t.MinSize, sb)
+	addSizeIfNotEmpty("MAXSIZE", t.MaxSize, sb)
 
 	if t.Before != nil {
-		val := t.Before.String()
-		addStringIfNotEmpty("BEFORE", &val, sb)
+		// DateTime.String() is already quoted
+		sb.WriteString(" BEFORE ")
+		sb.WriteString(t.Before.String())
 	}
+	addSizeIfNotEmpty("MAXDBSIZE", t.MaxDbSize, sb)
+}
+
+func addSizeIfNotEmpty(pfx string, val *Size, sb *strings.Builder) {
+	if val == nil {
+		return
+	}
+	sb.WriteByte(' ')
+	sb.WriteString(pfx)
+	sb.WriteByte(' ')
+	sb.WriteString(strconv.FormatUint(uint64(*val), 10))
 }
 
 // === Show
